@@ -162,7 +162,9 @@ class RoundTrip(Harness):
                  "antismash.common.serialiser:feature_to_json", "antismash.common.serialiser:feature_from_json",
                  "antismash.common.secmet.locations:location_from_string"]
     bound = ("a record with one gene, 1-2 protoclusters (core inside extent; optionally origin-spanning; optionally identical coordinates) "
-             "with the candidate clusters and regions the real formation code builds from them, optionally a subregion; symbolic "
+             "or 3 (middle one core == extent, outer ones with a neighbourhood on one side, gene outside) "
+             "with the candidate clusters and regions the real formation code builds from them, optionally a subregion (not together "
+             "with two free protoclusters); symbolic "
              "coordinates and record length; both the GenBank path (to_biopython -> from_biopython) and the JSON path (record_to_json -> "
              "record_from_json), each followed by a second conversion (fixed point)")
     outside = ("GenBank text and JSON text (SeqIO writer/parser, json.dumps/loads modelled as identity on the feature tree); domains, "
@@ -177,7 +179,9 @@ class RoundTrip(Harness):
         for shapes in (["s"], ["s", "s"], ["oe"], ["same"]):
             for sub in (False, True):
                 for path in ("genbank", "json"):
-                    if tier == "quick" and sub and shapes in (["s", "s"], ["same"]):
+                    if sub and shapes == ["s", "s"]:
+                        continue        # two free protoclusters plus a free subregion: ~10^5 paths per variant, not registered
+                    if tier == "quick" and sub and shapes == ["same"]:
                         continue
                     out.append({"shapes": shapes, "sub": sub, "path": path})
         # three protoclusters (non-consecutive numbering inside a candidate needs three): cores == extents, gene outside them
